@@ -165,47 +165,58 @@ def replay(history, collect=None):
                                   'relation': 'override-equals-edit', 'bucket': 'bystander-executor-sees-overrides',
                                   'extra': {'cell': f'{wb["titles"][si]}!{wbk.a1(c, r)}', 'step': n}})
                     return fails
-            for k in query_keys(wb, overrides):
-                si, c, r = (int(x) for x in k.split(':'))
-                got = wbk.outcome(lambda: ex.get_cell(make_cell(wb, k, step.get('addressing', 'a1'))).value)
-                want = wbk.outcome(lambda: fex.get_cell(wbk.Cell(si, c - 1, r - 1)).value)
-                if collect is not None:
-                    collect.append(1)
-                if got[0] == 'timeout' or want[0] == 'timeout':
-                    continue
-                if not eq_outcome(got, want):
-                    what = 'overridden-cell' if k in overrides else 'formula' if isinstance(wb['cells'].get(k), str) and str(wb['cells'].get(k)).startswith('=') else 'other-cell'
-                    fails.append({'case': {**history, 'steps': history['steps'][:n + 1]}, 'expected': wbk.show_outcome(want), 'actual': wbk.show_outcome(got),
-                                  'relation': 'override-equals-edit', 'bucket': f'{what}:' + (got[1] if got[0] != 'value' else 'value'),
-                                  'extra': {'cell': f'{wb["titles"][si]}!{wbk.a1(c, r)}', 'step': n}})
-                    return fails
-            # the whole-sheet grid: same shape and same values as the grid of the edited workbook
-            for si in range(len(wb['titles'])):
-                arg = si if n % 2 else wb['titles'][si]
-                g1 = wbk.outcome(lambda: [[wbk.show(c.value) for c in row] for row in ex.get_sheet(arg)])
-                g2 = wbk.outcome(lambda: [[wbk.show(c.value) for c in row] for row in fex.get_sheet(si)])
-                if collect is not None:
-                    collect.append(1)
-                if 'timeout' in (g1[0], g2[0]) or g1[0] != 'value' or g2[0] != 'value':
-                    continue    # a raising cell inside the grid: judged cell by cell above
-                # the edited workbook stores nothing for an override beyond its used range that is blank-like; compare the common part
-                # exactly and demand that the executor's grid covers every overridden coordinate
-                need_r = max([int(k.split(':')[2]) for k in overrides if k.startswith(f'{si}:')] + [0])
-                need_c = max([int(k.split(':')[1]) for k in overrides if k.startswith(f'{si}:')] + [0])
-                rows1 = len(g1[1])
-                cols1 = len(g1[1][0]) if g1[1] else 0
-                if rows1 < need_r or (rows1 and cols1 < need_c) or any(len(r_) != cols1 for r_ in g1[1]):
-                    fails.append({'case': {**history, 'steps': history['steps'][:n + 1]}, 'expected': f'a rectangular grid of at least {need_r} x {need_c}',
-                                  'actual': f'{rows1} rows, row lengths {sorted({len(r_) for r_ in g1[1]})}', 'relation': 'override-equals-edit',
-                                  'bucket': 'sheet-grid:shape', 'extra': {'sheet': si, 'step': n}})
-                    return fails
-                for ri, row in enumerate(g2[1]):
-                    for ci, v in enumerate(row):
-                        if ri < rows1 and ci < cols1 and g1[1][ri][ci] != v:
-                            fails.append({'case': {**history, 'steps': history['steps'][:n + 1]}, 'expected': v, 'actual': g1[1][ri][ci],
-                                          'relation': 'override-equals-edit', 'bucket': 'sheet-grid:value',
-                                          'extra': {'sheet': si, 'cell': wbk.a1(ci + 1, ri + 1), 'step': n}})
-                            return fails
+            def check_cells():
+                for k in query_keys(wb, overrides):
+                    si, c, r = (int(x) for x in k.split(':'))
+                    got = wbk.outcome(lambda: ex.get_cell(make_cell(wb, k, step.get('addressing', 'a1'))).value)
+                    want = wbk.outcome(lambda: fex.get_cell(wbk.Cell(si, c - 1, r - 1)).value)
+                    if collect is not None:
+                        collect.append(1)
+                    if got[0] == 'timeout' or want[0] == 'timeout':
+                        continue
+                    if not eq_outcome(got, want):
+                        what = 'overridden-cell' if k in overrides else 'formula' if isinstance(wb['cells'].get(k), str) and str(wb['cells'].get(k)).startswith('=') else 'other-cell'
+                        fails.append({'case': {**history, 'steps': history['steps'][:n + 1]}, 'expected': wbk.show_outcome(want), 'actual': wbk.show_outcome(got),
+                                      'relation': 'override-equals-edit', 'bucket': f'{what}:' + (got[1] if got[0] != 'value' else 'value'),
+                                      'extra': {'cell': f'{wb["titles"][si]}!{wbk.a1(c, r)}', 'step': n}})
+                        return True
+                return False
+
+            def check_grids():
+                # the whole-sheet grid: same shape and same values as the grid of the edited workbook
+                for si in range(len(wb['titles'])):
+                    arg = si if n % 2 else wb['titles'][si]
+                    g1 = wbk.outcome(lambda: [[wbk.show(c.value) for c in row] for row in ex.get_sheet(arg)])
+                    g2 = wbk.outcome(lambda: [[wbk.show(c.value) for c in row] for row in fex.get_sheet(si)])
+                    if collect is not None:
+                        collect.append(1)
+                    if 'timeout' in (g1[0], g2[0]) or g1[0] != 'value' or g2[0] != 'value':
+                        continue    # a raising cell inside the grid: judged cell by cell above
+                    # the edited workbook stores nothing for an override beyond its used range that is blank-like; compare the common part
+                    # exactly and demand that the executor's grid covers every overridden coordinate
+                    need_r = max([int(k.split(':')[2]) for k in overrides if k.startswith(f'{si}:')] + [0])
+                    need_c = max([int(k.split(':')[1]) for k in overrides if k.startswith(f'{si}:')] + [0])
+                    rows1 = len(g1[1])
+                    cols1 = len(g1[1][0]) if g1[1] else 0
+                    if rows1 < need_r or (rows1 and cols1 < need_c) or any(len(r_) != cols1 for r_ in g1[1]):
+                        fails.append({'case': {**history, 'steps': history['steps'][:n + 1]}, 'expected': f'a rectangular grid of at least {need_r} x {need_c}',
+                                      'actual': f'{rows1} rows, row lengths {sorted({len(r_) for r_ in g1[1]})}', 'relation': 'override-equals-edit',
+                                      'bucket': 'sheet-grid:shape', 'extra': {'sheet': si, 'step': n}})
+                        return True
+                    for ri, row in enumerate(g2[1]):
+                        for ci, v in enumerate(row):
+                            if ri < rows1 and ci < cols1 and g1[1][ri][ci] != v:
+                                fails.append({'case': {**history, 'steps': history['steps'][:n + 1]}, 'expected': v, 'actual': g1[1][ri][ci],
+                                              'relation': 'override-equals-edit', 'bucket': 'sheet-grid:value',
+                                              'extra': {'sheet': si, 'cell': wbk.a1(ci + 1, ri + 1), 'step': n}})
+                                return True
+                return False
+
+            # every second query asks for the whole sheets first: a grid read directly after set_cells (no single-cell query in between)
+            # must show the overrides as well
+            first, second = (check_grids, check_cells) if n % 2 else (check_cells, check_grids)
+            if first() or second():
+                return fails
     return fails
 
 
